@@ -1,5 +1,5 @@
 (** C11 — input grammar: accept exactly the documented language, report every violation. *)
-From GV Require Import Base.Str Base.Gerr Base.Sort Regex.Re Proofs.RegexProofs Regex.Equiv Regex.Langs Proofs.LangsProofs
+From GV Require Import Base.Str Base.Gerr Base.Sort Regex.Re Proofs.RegexProofs Proofs.BtProofs Regex.Equiv Regex.Langs Proofs.LangsProofs
   Model.Env Model.Input Model.Compile Model.Validate Gen.RegexSrc Gen.EnvGen Tie.RegexTie.
 
 (** a regenerated validator regex accepts exactly the strings of the documented language, for strings of any length *)
@@ -81,3 +81,17 @@ Print Assumptions C11_service_all_reported.
 Theorem C11_todo_exempt : forall n sv, sv_todo sv = Some true -> site_match (re_in_ServiceName the_env) n = true -> v_service the_env n sv = None.
 Proof. intros n sv Ht Hn. unfold v_service. rewrite Ht, Hn. reflexivity. Qed.
 Print Assumptions C11_todo_exempt.
+
+(** ---- the parts of a matched string (Proofs/BtProofs.v): wherever the code reads named groups of a match, the model's
+    leftmost-first backtracking matcher is defined exactly on the language of the expression, and each group it reports is a
+    substring of the input matched by the body of that group ---- *)
+Theorem C11_submatch_defined_iff_match : forall (st : site) (x : str),
+  site_submatch st x <> None <-> dmatch (site_re st) x = true.
+Proof. exact site_submatch_iff_dmatch. Qed.
+Print Assumptions C11_submatch_defined_iff_match.
+
+Theorem C11_groups_faithful : forall (r : re) (x : str) (c : caps) (i : nat) (v : str),
+  bt_full r x = Some c -> In (i, v) c ->
+  exists a, subre_cap i a r /\ Sem a v /\ exists pre post, x = pre ++ v ++ post.
+Proof. exact bt_full_caps_faithful. Qed.
+Print Assumptions C11_groups_faithful.
